@@ -34,6 +34,7 @@ impl Command for T {
             return match a.get(0).map(|s| s.as_str()) {
                 Some("CRASHME") => CommandResult::Crash("handler crashed".to_string()),
                 Some("EXITME") => CommandResult::Exit(None),
+                Some("EXIT0") => CommandResult::Exit(Some("0".to_string())),
                 // a handler may continue with a value of its own: the failing instruction's output stays 'false'
                 _ => if self.aliases.contains(&"with_value".to_string()) { CommandResult::Continue(Some("handled".to_string())) } else { CommandResult::Continue(None) },
             };
@@ -83,13 +84,14 @@ pub fn gen(r: &mut Rng) -> Value {
             _ => "comment",
         };
         let (label, out) = if kind == "pre" || kind == "blank" || kind == "comment" { (Value::Null, Value::Null) } else { (label, out) };
-        let val = match r.below(8) { 0 => "-", 1 => "0", 2 => "7", 3 => "x", 4 => "${v0}", 5 => "-3", 6 => "\\${v0}", _ => "CRASHME" };
-        let target = if kind == "gotol" { json!(r.pick(&[":a", ":b", ":c", ":zz"])) } else { json!(r.below(n + 2).to_string()) };
+        let val = match r.below(10) { 0 => "-", 1 => "0", 2 => "7", 3 => "x", 4 => "${v0}", 5 => "-3", 6 => "\\${v0}", 7 => "EXITME", 8 => "EXIT0", _ => "CRASHME" };
+        let target = if kind == "gotol" { json!(r.pick(&[":a", ":b", ":c", ":zz", "a", "zz"])) } else { json!(r.below(n + 2).to_string()) };
         // some lines spell the command with a word that is both the name of one command and (registered
         // later) an alias of another: the alias table is consulted first
         lines.push(json!({"label": label, "out": out, "kind": kind, "val": val, "target": target, "via_alias": r.chance(1, 5)}));
     }
-    json!({"lines": lines, "on_error": r.below(4), "fuel": 40})
+    // (sometimes the embedder's flag is already up when the run starts)
+    json!({"lines": lines, "on_error": r.below(4), "fuel": 40, "prehalt": r.chance(1, 12)})
 }
 
 fn upd(vars: &mut BTreeMap<String, String>, out: &Option<String>, v: Option<String>) {
@@ -144,7 +146,8 @@ pub fn run(input: &Value) -> Option<Value> {
     let mut vars: BTreeMap<String, String> = BTreeMap::new();
     let mut trace: Vec<String> = vec![];
     let mut line = 0usize;
-    let mut halted = false;
+    let prehalt = input["prehalt"].as_bool().unwrap_or(false);
+    let mut halted = prehalt;
     let mut outcome: Result<(), Option<usize>> = Ok(()); // Err(Some(source line)) = failure naming a line
     let mut steps = 0;
     loop {
@@ -223,7 +226,8 @@ pub fn run(input: &Value) -> Option<Value> {
                 upd(&mut vars, &out, Some("false".to_string()));
                 if on_error > 0 {
                     trace.push(format!("on_error@0({}|{}|)->None", val_arg, src_line));
-                    if val_arg == "CRASHME" {
+                    // a handler that crashes or answers with exit (whatever the code) ends the run at the failing line
+                    if val_arg == "CRASHME" || val_arg == "EXITME" || val_arg == "EXIT0" {
                         outcome = Err(Some(src_line));
                         break;
                     }
@@ -247,7 +251,7 @@ pub fn run(input: &Value) -> Option<Value> {
         // on_error == 3: the handler continues with a value ("with_value" is only a marker alias)
         context.commands.set(Box::new(T { trace: tr.clone(), name: "on_error".to_string(), aliases: if on_error == 3 { vec!["with_value".to_string()] } else { vec![] } })).ok()?;
     }
-    let halt = Arc::new(AtomicBool::new(false));
+    let halt = Arc::new(AtomicBool::new(prehalt));
     let env = Env::new(None, None, Some(halt.clone()));
     let res = runner::run_script(&script, context, Some(env));
     // the flag belongs to the embedder (it may be shared with other runs): the run only reads it
